@@ -514,6 +514,66 @@ func race(file, script string, timeout time.Duration, want2 bool) []solveResult 
 	return results
 }
 
+// raceWithCases: a quick attempt on the whole query; if that does not decide it, the query is
+// split on the given conditions (2^k cases, each the whole query plus the case's literals) and
+// all cases must be unsat; if a case is not refuted the whole query is raced as usual.
+func raceWithCases(file, script string, conds []string, timeout time.Duration) []solveResult {
+	os.WriteFile(file, []byte(script), 0o644)
+	quick := 3 * time.Second
+	if timeout < quick {
+		quick = timeout
+	}
+	r := runSolver(context.Background(), solvers[0], file, script, quick)
+	if r.status == "unsat" || r.status == "sat" {
+		return []solveResult{r}
+	}
+	base := strings.TrimSuffix(script, "(check-sat)\n")
+	if base == script {
+		return race(file, script, timeout, false)
+	}
+	n := 1 << len(conds)
+	ctx, cancel := context.WithCancel(context.Background())
+	defer cancel()
+	ch := make(chan solveResult, n)
+	t0 := time.Now()
+	for m := 0; m < n; m++ {
+		var sb strings.Builder
+		sb.WriteString(base)
+		for i, c := range conds {
+			if m&(1<<i) != 0 {
+				fmt.Fprintf(&sb, "(assert %s)\n", c)
+			} else {
+				fmt.Fprintf(&sb, "(assert (not %s))\n", c)
+			}
+		}
+		sb.WriteString("(check-sat)\n")
+		cf := fmt.Sprintf("%s.case%d.smt2", file, m)
+		go func(cf, text string) {
+			os.WriteFile(cf, []byte(text), 0o644)
+			ch <- runSolver(ctx, solvers[0], cf, text, timeout)
+			os.Remove(cf)
+		}(cf, sb.String())
+	}
+	all := true
+	for m := 0; m < n; m++ {
+		cr := <-ch
+		if os.Getenv("VERIF_DEBUG") != "" {
+			fmt.Fprintf(os.Stderr, "case of %s: %s %d ms\n", filepath.Base(file), cr.status, cr.ms)
+		}
+		if cr.status != "unsat" {
+			all = false
+			break
+		}
+	}
+	cancel()
+	if all {
+		return []solveResult{{"unsat", fmt.Sprintf("%s/cases(%d)", solvers[0].Name, n), time.Since(t0).Milliseconds() + r.ms, ""}}
+	}
+	rs := race(file, script, timeout, true)
+	// race(want2=true) skips the quick stage; one definitive answer suffices here
+	return rs
+}
+
 var modelRe = regexp.MustCompile(`\(define-fun\s+(\S+|\|[^|]*\|)\s+\(\)\s+(\(_ BitVec \d+\)|Bool)\s+(#x[0-9a-fA-F]+|#b[01]+|true|false)\)`)
 
 func parseScalarModel(out string) map[string]string {
@@ -541,6 +601,7 @@ func (P *Prog) discharge(obls []*Obligation, opt SolveOpts) {
 	type job struct {
 		o      *Obligation
 		script string
+		conds  []string // printed split conditions (case split fallback)
 	}
 	// query construction touches the global term table: do it sequentially
 	var launchWith func(i int, j job, opt SolveOpts)
@@ -553,7 +614,12 @@ func (P *Prog) discharge(obls []*Obligation, opt SolveOpts) {
 			defer func() { <-sem }()
 			o := j.o
 			file := filepath.Join(opt.Dir, fmt.Sprintf("q%04d.smt2", i))
-			rs := race(file, j.script, opt.Timeout, opt.TwoAgree && !o.Cover)
+			var rs []solveResult
+			if !opt.TwoAgree && !o.Cover && len(j.conds) > 0 {
+				rs = raceWithCases(file, j.script, j.conds, opt.Timeout)
+			} else {
+				rs = race(file, j.script, opt.Timeout, opt.TwoAgree && !o.Cover)
+			}
 			r := rs[0]
 			o.Solver, o.Ms = r.solver, r.ms
 			want := "unsat"
@@ -617,7 +683,13 @@ func (P *Prog) discharge(obls []*Obligation, opt SolveOpts) {
 				fmt.Fprintf(os.Stderr, "   lazy[%s]: %s\n", l.Sort, l.Desc)
 			}
 		}
-		jb := job{o, Script(asserts, "", nil)}
+		var jb job
+		if os.Getenv("VERIF_NO_CASES") == "" && !o.Cover {
+			sc, cs := ScriptEx(asserts, "", nil, splitConds(asserts, 2))
+			jb = job{o, sc, cs}
+		} else {
+			jb = job{o, Script(asserts, "", nil), nil}
+		}
 		jobs = append(jobs, jb)
 		launch(len(jobs)-1, jb)
 	}
